@@ -204,11 +204,9 @@ def _identity_gate_edges(ctx: Context, cfg, reporter_terms) -> list:
             for a, b in ((l, r), (r, l)):
                 if is_current(a) and b in reporter_terms:
                     edges += ctx.edges(cfg, n, "T" if pos else "F")
-                if is_current(a) and b == ("const", None):
-                    edges += ctx.edges(cfg, n, "T" if pos else "F")
-        elif is_current(t):
-            # truthiness of the current protocol/transport: falsy = nothing to disturb
-            edges += ctx.edges(cfg, n, "F")
+        # NOT accepted: "there is no current protocol" (is None / falsy).  _drop_transport clears the reference, so that
+        # outcome is exactly the case of a connection the controller dropped on purpose; forwarding its loss restarts the
+        # connector (after an authentication failure: endless immediate retries - reproduced against the real code).
     return edges
 
 
@@ -273,7 +271,7 @@ def _x1(ctx: Context) -> None:
     f = ctx.func(f"{HC}.close")
     cfg = ctx.cfg(f.qualname)
     esc = sorted(ctx.flow.esc(f.qualname))
-    bad = [e for e in esc if ctx.prog.is_subclass(e, "Exception") or not ctx.prog.known_class(e)]
+    bad = [e for e in esc if ctx.prog.is_subclass(e, "Exception") or not ctx.prog.known_class(e) or e == "asyncio.CancelledError[task]"]
     ck.stats["close_escape_set"] = esc
     if not bad:
         ck.holds("C11.X1", f"escapes(HomeKitConnection.close) = {esc}: no Exception subclass", f.loc())
@@ -299,7 +297,7 @@ def _x1(ctx: Context) -> None:
     for q in (f"{SHC}.close", "aiohomekit.controller.ip.pairing.IpPairing.close"):
         if q in ctx.prog.functions:
             esc2 = sorted(ctx.flow.esc(q))
-            bad2 = [e for e in esc2 if ctx.prog.is_subclass(e, "Exception")]
+            bad2 = [e for e in esc2 if ctx.prog.is_subclass(e, "Exception") or e == "asyncio.CancelledError[task]"]
             ck.check(
                 "C11.X1",
                 not bad2,
@@ -442,8 +440,9 @@ VARIANTS = [
      "old": "                    except BaseException:\n                        # Whatever went wrong, a transport opened by this\n                        # attempt is of no use without a secure session: close\n                        # it so it is not leaked when the next attempt\n                        # replaces it.\n                        self._drop_transport()\n                        raise",
      "new": "                    except BaseException:\n                        raise", "expect": "C11.G1"},
     {"name": "only HomeKitException failures drop the transport", "file": _F, "old": "                    except BaseException:\n                        # Whatever went wrong", "new": "                    except HomeKitException:\n                        # Whatever went wrong", "expect": "C11.G1"},
-    {"name": "identity guard removed (pinned defect)", "file": _F, "old": "        if self.connection.protocol is self or self.connection.protocol is None:\n", "new": "        if True:\n", "expect": "C11.G2"},
-    {"name": "identity guard inverted", "file": _F, "old": "        if self.connection.protocol is self or self.connection.protocol is None:", "new": "        if self.connection.protocol is not self:", "expect": "C11.G2"},
+    {"name": "identity guard removed (pinned defect)", "file": _F, "old": "        if self.connection.protocol is self:\n", "new": "        if True:\n", "expect": "C11.G2"},
+    {"name": "identity guard inverted", "file": _F, "old": "        if self.connection.protocol is self:", "new": "        if self.connection.protocol is not self:", "expect": "C11.G2"},
+    {"name": "loss of a deliberately dropped connection forwarded (restarts the connector)", "file": _F, "old": "        if self.connection.protocol is self:", "new": "        if self.connection.protocol is self or self.connection.protocol is None:", "expect": "C11.G2"},
     {"name": "finished connector's error re-raised by close (pinned defect)", "file": _F,
      "old": "        except Exception as ex:  # pylint: disable=broad-except\n            # The connector already finished with an error (for example an\n            # AuthenticationError); closing must not fail because of it.\n            logger.debug(\"%s: Connector had failed: %s\", self.name, ex)\n", "new": "", "expect": "C11.X1"},
     {"name": "close() raises when already closing", "file": _F, "old": "        self.closing = True\n\n        await self._stop_connector()", "new": "        if self.closing:\n            raise AccessoryDisconnectedError(\"already closing\")\n        self.closing = True\n\n        await self._stop_connector()", "expect": "C11.X1"},
